@@ -563,9 +563,33 @@ fn enumerate_c17(a: &Args, index: u64, out: &mut impl Write) -> Option<Replay> {
     let mut rng = Rng::new(run_seed, gen::STREAM_WORKLOAD);
     let mut prefix = gen::gen_small_world(&mut rng, 0, if a.thorough { 12 } else { 8 });
     // A second world related to the first (for clone_from / eq targets), and a snapshot.
-    match rng.below(3) {
+    match rng.below(4) {
         0 => prefix.push(Op::Clone { src: 0, dst: 1 }),
         1 => prefix.extend(gen::gen_small_world(&mut rng, 1, 4)),
+        2 => {
+            // The second world has the same tables, emptied (their columns keep a small capacity),
+            // and the first one then outgrows them: copying reallocates columns that look empty.
+            prefix.push(Op::Clone { src: 0, dst: 1 });
+            if rng.chance(1, 2) {
+                prefix.push(Op::Clear { slot: 1 });
+            } else {
+                for _ in 0..rng.range(1, 4) {
+                    prefix.push(Op::Remove { slot: 1, pick: Pick { kind: 0, k: rng.below(1 << 20) as u32 } });
+                }
+            }
+            let grow: Vec<Op> = prefix.iter().filter(|o| matches!(o, Op::Insert { slot: 0, .. } | Op::Extend { slot: 0, .. })).cloned().collect();
+            if !grow.is_empty() {
+                match grow[rng.usize_below(grow.len())].clone() {
+                    Op::Insert { site, .. } => {
+                        for _ in 0..rng.range(4, 9) {
+                            prefix.push(Op::Insert { slot: 0, site, seed: rng.next_u64() });
+                        }
+                    }
+                    Op::Extend { how, site, extra, .. } => prefix.push(Op::Extend { slot: 0, how, site, n: rng.range(5, 12) as u16, extra, seed: rng.next_u64() }),
+                    _ => {}
+                }
+            }
+        }
         _ => {}
     }
     if rng.chance(1, 2) {
